@@ -299,6 +299,11 @@ func genXport(r *rng, seed uint64, focus, arm string) *plan.Plan {
 					d2 = r.i64(6_050_000, 7_000_000) // later than the TCP leg's 6 s I/O limit
 				}
 				t.Acts = append(t.Acts, plan.UpAction{Kind: k2, DelayUs: d2})
+				if r.p(0.15) {
+					// the TCP answer carries TC itself (records and all): it is
+					// the outcome all the same
+					t.Ans.Bits |= refdns.BitTC
+				}
 				if r.p(0.2) {
 					// what only the TCP leg can carry: an answer of many KiB
 					// whose late names are compressed against each other
